@@ -638,6 +638,7 @@ func Run(c *run.Ctx) {
 	if c.Knob("faults", "off") != "enum" {
 		return
 	}
+	pairs := 0
 	for i, o := range r.ops {
 		i, o := i, o
 		fs2 := prior.Clone("disk")
@@ -669,6 +670,37 @@ func Run(c *run.Ctx) {
 		if d := diffTrees(m.tr, r2.tr); d != "" {
 			c.Violate("error-reported", "C19/fault-swallowed/"+o.Kind, "I/O error injected at op %d (%s %s): the command reported success but the tree is not the described one: %s (description %s)", i, o.Kind, o.Path, d, src)
 			return
+		}
+		// fault sequences: the command survived this fault, so a second one can still land inside it
+		if pairs >= 40 {
+			continue
+		}
+		for j := i + 1; j < len(r2.ops) && pairs < 40; j++ {
+			j, o2 := j, r2.ops[j]
+			pairs++
+			fs3 := prior.Clone("disk")
+			fs3.Before = func(seq int, kind, p string) *simfs.Fault {
+				if seq == i || seq == j {
+					return &simfs.Fault{Partial: o2.N / 2}
+				}
+				return nil
+			}
+			r3 := execute(value, fs3, out)
+			c.Res.Steps += len(r3.ops)
+			c.Fault("second:" + o2.Kind)
+			if r3.panicMsg != "" {
+				c.Violate("no-crash", "C19/fault-panic/"+o.Kind+"+"+o2.Kind+"/"+r3.frame, "I/O errors at ops %d (%s) and %d (%s %s): OutputValue panicked: %s (description %s)", i, o.Kind, j, o2.Kind, o2.Path, r3.panicMsg, src)
+				return
+			}
+			if r3.err == nil {
+				c.Probe("fault-pair-tolerated")
+				if d := diffTrees(m.tr, r3.tr); d != "" {
+					c.Violate("error-reported", "C19/fault-swallowed/"+o.Kind+"+"+o2.Kind, "I/O errors injected at ops %d (%s %s) and %d (%s %s): the command reported success but the tree is not the described one: %s (description %s)", i, o.Kind, o.Path, j, o2.Kind, o2.Path, d, src)
+					return
+				}
+			} else {
+				c.Probe("fault-pair-reported")
+			}
 		}
 	}
 }
